@@ -4,7 +4,8 @@
 # under each patch).
 cd /verif; export SHOW=3
 : > .build/benign_all.log
-ls -d benign/*/ | xargs -n1 basename > .build/benign_list.txt
+# newest patches first; patches already judged silent in this run (BENIGN_SKIP, space-separated) are left out
+ls -d benign/*/ | xargs -n1 basename | sort -r | grep -v -x -F -f <(echo ${BENIGN_SKIP:-none} | tr ' ' '\n') > .build/benign_list.txt
 run_slot() {
   slot=$1; k=$2
   tools/setup_agent.sh $slot >/dev/null
